@@ -15,10 +15,10 @@
       if isinstance(source, str) and not raw_yaml:
           try:
               with open(os.path.expanduser(source), 'r') as f:
-                  self._current_file = source          -- the name AS GIVEN, not the expanded one
-                  source = f.read()
+                  content = f.read()
+              self._current_file, source = source, content   -- the name AS GIVEN (not expanded), only after a successful read
           except (FileNotFoundError, OSError) as e:
-              if type(e) is OSError and e.errno not in [22, 36]: raise             -- EXACT type
+              if not isinstance(e, FileNotFoundError) and (type(e) is not OSError or e.errno not in [22, 36]): raise
               if raw_yaml is not None: raise
       try:
           if filename is not None: self._current_file = filename
@@ -34,14 +34,13 @@
   `open(...)`+`read()` per name (`FileSys`), `os.path.expanduser`, `str(pathlib.Path)`, the parser
   (`Parser`: the documents a text yields, `None` documents removed, and whether it raises after them).
 
-  Two things the code does that its documentation does not say, both kept literally (see
-  Props/C06_Sources.lean for the theorems and the counterexamples):
-  * `type(e) is OSError` is an exact-type test, so a proper SUBCLASS of OSError other than
-    FileNotFoundError (IsADirectoryError, NotADirectoryError, PermissionError) is not re-raised by the
-    first `if`: with `raw_yaml=None` the name of a directory or of an unreadable file is parsed as YAML.
-  * `self._current_file = source` runs before `f.read()` and outside the `try/finally`: when `read()`
-    raises (UnicodeDecodeError — a ValueError, not an OSError) the name stays in `_current_file` and is
-    inherited by the next source that has no name of its own.
+  History (repo fixes D47, D48; the old behaviour is kept as mutant functions in Props/C06_Sources.lean):
+  * D48: the re-raise test was `type(e) is OSError and e.errno not in [22, 36]` — an exact-type test, so a proper
+    SUBCLASS of OSError other than FileNotFoundError (IsADirectoryError, NotADirectoryError, PermissionError) was not
+    re-raised: with `raw_yaml=None` the name of a directory or of an unreadable file was parsed as YAML.
+  * D47: `self._current_file = source` ran before `f.read()` and outside the `try/finally`: when `read()` raised
+    (UnicodeDecodeError — a ValueError, not an OSError) the name stayed in `_current_file` and was inherited by the
+    next source that had no name of its own.
 -/
 import AY.Model.Cmdline
 namespace AY
@@ -116,10 +115,11 @@ def rawTrue : Option Bool → Bool
   | some true => true
   | _ => false
 
-/-- the `except (FileNotFoundError, OSError) as e:` clause; `plainOther` ⇔ `type(e) is OSError and e.errno not
-    in [22, 36]`.  Result: what `source` is afterwards (the string itself), or the exception. -/
-def fallback (raw : Option Bool) (s : String) (e : SrcErr) (plainOther : Bool) : Except SrcErr String :=
-  if plainOther then .error e
+/-- the `except (FileNotFoundError, OSError) as e:` clause; `reraise` ⇔ `not isinstance(e, FileNotFoundError) and
+    (type(e) is not OSError or e.errno not in [22, 36])`.  Result: what `source` is afterwards (the string itself),
+    or the exception. -/
+def fallback (raw : Option Bool) (s : String) (e : SrcErr) (reraise : Bool) : Except SrcErr String :=
+  if reraise then .error e
   else if raw.isSome then .error e
   else .ok s
 
@@ -128,11 +128,11 @@ def fallback (raw : Option Bool) (s : String) (e : SrcErr) (plainOther : Bool) :
 def openStr (S : FileSys) (cur : Option String) (s : String) (raw : Option Bool) : Except SrcErr String × Option String :=
   match openRead S s with
   | .content t => (.ok t, some s)
-  | .readError => (.error (.decode (S.expanduser s)), some s)
+  | .readError => (.error (.decode (S.expanduser s)), cur)
   | .valueError => (.error (.openValue (S.expanduser s)), cur)
   | .notFound => (fallback raw s (.fileNotFound (S.expanduser s)) false, cur)
   | .osError n => (fallback raw s (.osError n (S.expanduser s)) (n != 22 && n != 36), cur)
-  | .osSub c => (fallback raw s (.osSub c (S.expanduser s)) false, cur)
+  | .osSub c => (fallback raw s (.osSub c (S.expanduser s)) true, cur)
 
 /-- `add_source` up to the second `try:` — (the text handed on or the exception, `_current_file` afterwards) -/
 def openStep (S : FileSys) (cur : Option String) (src : SourceArg) (raw : Option Bool) :
@@ -156,8 +156,8 @@ def guessSourceFrom (cur : Option String) (S : FileSys) (raw : Option Bool) (fil
   | .error e => .error e
   | .ok text => .ok (text, recordedName filename (openStep S cur src raw).2)
 
-/-- … on a builder whose `_current_file` is `None` (a fresh builder, or any builder whose previous calls ended
-    without a read error) -/
+/-- … on a builder whose `_current_file` is `None` (a fresh builder, or a builder after any sequence of calls:
+    `C06_current_file_always_none`) -/
 def guessSource (S : FileSys) (raw : Option Bool) (filename : Option String) (src : SourceArg) :
     Except SrcErr (String × Option String) :=
   guessSourceFrom none S raw filename src
